@@ -1150,9 +1150,13 @@ func Hydro(horizon int, g *GlobalVarsMain, local *InputSharedVars, hPath *HFileP
 	if horizon == g.AZHO {
 		_, scannerParCap, _ := g.Session.Open(&FileDescriptior{FilePath: hPath.parcap, UseFilePool: true})
 		foundParCapEntry := false
-		for !foundParCapEntry {
-			PARA := LineInut(scannerParCap)
-			PARA2 := LineInut(scannerParCap)
+		// stop at the end of the table: a texture without entry is an error of this run (see below)
+		for !foundParCapEntry && scannerParCap.Scan() {
+			PARA := scannerParCap.Text()
+			if !scannerParCap.Scan() {
+				break
+			}
+			PARA2 := scannerParCap.Text()
 			texture := PARA[0:3]
 			texture = strings.ToUpper(texture)
 			// last soil layer texture is used for all layers to fill out CAPS
